@@ -3,6 +3,7 @@
 package scen
 
 import (
+	"encoding/hex"
 	"fmt"
 
 	"github.com/vapourismo/knx-go/knx"
@@ -350,4 +351,52 @@ func init() {
 	register("thorough", &h.Scenario{Name: "C04-udp-stream6", Prop: "C04", P: 1, F: 0, D: 1, Run: c04Run(6, false, 0, 3), Check: c04Oracle(false)})
 	register("thorough", &h.Scenario{Name: "C04-udp-stream4-d2", Prop: "C04", P: 2, F: 0, D: 2, Run: c04Run(4, false, 0, 3), Check: c04Oracle(false)})
 	register("thorough", &h.Scenario{Name: "C04-tcp-stream5", Prop: "C04", P: 1, F: 0, D: 1, Run: c04Run(5, true, 0, 3), Check: c04Oracle(true)})
+}
+
+// c04FullStackOracle: the acknowledgements as they leave the real socket. The scenario is C03's
+// full-stack one (the application's Send and its retransmission share the socket with the
+// connection server's acknowledgements of three inbound requests): every buffer that leaves the
+// socket must be a whole well-formed frame, and the acknowledgements among them must be exactly
+// those of the requests the gateway sent - same channel, same number, status OK.
+func c04FullStackOracle(tr *mc.Trace) []h.Violation {
+	vs := generic(tr, "C04", true)
+	acks := map[string]int{}
+	for _, e := range tr.Log {
+		wr, ok := e.V.(Wrote)
+		if !ok {
+			continue
+		}
+		b, _ := hex.DecodeString(wr.Hex)
+		var v knxnet.Service
+		if len(b) < 6 || (int(b[4])<<8|int(b[5])) != len(b) {
+			vs = append(vs, h.Violation{Class: "C04:transmission-corrupt", Msg: fmt.Sprintf("a buffer of %d octets left the socket whose header announces %d: %s", len(b), int(b[4])<<8|int(b[5]), wr.Hex)})
+			continue
+		}
+		if _, err := knxnet.Unpack(b, &v); err != nil {
+			vs = append(vs, h.Violation{Class: "C04:transmission-corrupt", Msg: fmt.Sprintf("the client put %s on the wire, which is no frame: %v", wr.Hex, err)})
+			continue
+		}
+		if r, ok := v.(*knxnet.TunnelRes); ok {
+			acks[fmt.Sprintf("%d/%d/%d", r.Channel, r.SeqNumber, r.Status)]++
+		}
+	}
+	if tr.Reason != "main-returned" {
+		return vs
+	}
+	for i := 0; i < 3; i++ {
+		k := fmt.Sprintf("7/%d/0", i)
+		// (requests 1 and 2 are sent 100 and 200 ms later and may find the tunnel closed)
+		if acks[k] == 0 && i == 0 {
+			vs = append(vs, h.Violation{Class: "C04:ack-missing-on-the-wire", Msg: fmt.Sprintf("the gateway's request %d (channel 7) was not acknowledged on the wire with channel 7, number %d, status OK; acknowledgements seen: %v", i, i, acks)})
+		}
+		delete(acks, k)
+	}
+	for k := range acks {
+		vs = append(vs, h.Violation{Class: "C04:ack-unexpected-on-the-wire", Msg: "acknowledgement " + k + " (channel/number/status) left the socket; the gateway sent requests 0..2 on channel 7"})
+	}
+	return vs
+}
+
+func init() {
+	register("both", &h.Scenario{Name: "C04-fullstack-acks-share-the-socket-with-a-pending-send", Prop: "C04", P: 2, F: 0, D: 4, Run: c03FullStack(), Check: c04FullStackOracle})
 }
